@@ -345,23 +345,36 @@ func VerifHarness_C01_rt_evlinks() {
 	}
 }
 
-// VerifHarness_C01_rt_group: RES resources x SCOPES scopes x 1 span, resource/scope identities symbolic and
-// possibly equal or near-identical (same key, values differing in type), schema URLs, names, versions.
+// verifIdentityAttr puts one attribute with the fixed key "k" whose value is either a one-byte string or an
+// integer (symbolic choice): resources/scopes built with it can be equal, differ in content, or be
+// near-identical (same key, values differing only in type).
+func verifIdentityAttr(m pcommon.Map, tag string) {
+	if rt.Bool(tag + ".isStr") {
+		m.PutStr("k", verifOne(tag+".str"))
+	} else {
+		m.PutInt("k", int64(rt.Uint8(tag+".int")))
+	}
+}
+
+// VerifHarness_C01_rt_group: RES resources x SCOPES scopes x 1 span. Resource identity = (attribute "k" of
+// symbolic type and value, one-byte schema URL); scope identity = (one-byte name, one-byte schema URL,
+// attribute "k"). All may coincide, differ, or be near-identical, so every grouping/regrouping outcome of the
+// optimizer and of the decoder is a feasible path.
 func VerifHarness_C01_rt_group() {
 	p, c := verifProducer(), verifConsumer()
 	for b := 0; b < rt.Param("BATCHES"); b++ {
 		td := ptrace.NewTraces()
 		for r := 0; r < rt.Param("RES"); r++ {
 			rs := td.ResourceSpans().AppendEmpty()
-			verifAttrs(rs.Resource().Attributes(), "res", 1, 1|2)
-			rs.SetSchemaUrl(rt.String("res.url", 1))
-			rs.Resource().SetDroppedAttributesCount(rt.Uint32("res.dac"))
+			verifIdentityAttr(rs.Resource().Attributes(), "res")
+			rs.SetSchemaUrl(verifOne("res.url"))
 			for s := 0; s < rt.Param("SCOPES"); s++ {
 				ss := rs.ScopeSpans().AppendEmpty()
-				ss.Scope().SetName(rt.String("scope.name", 1))
-				ss.Scope().SetVersion(rt.String("scope.version", 1))
-				ss.SetSchemaUrl(rt.String("scope.url", 1))
-				verifAttrs(ss.Scope().Attributes(), "scope", 1, 1|2)
+				ss.Scope().SetName(verifOne("scope.name"))
+				ss.SetSchemaUrl(verifOne("scope.url"))
+				if rt.Param("SCOPEATTR") == 1 {
+					verifIdentityAttr(ss.Scope().Attributes(), "scope")
+				}
 				verifSpanFields(ss.Spans().AppendEmpty(), "sp", 0)
 			}
 		}
